@@ -6,6 +6,7 @@
 package main
 
 import (
+	"encoding/binary"
 	"crypto/sha256"
 	"encoding/hex"
 	"encoding/json"
@@ -33,7 +34,7 @@ import (
 // ---- alphabet -----------------------------------------------------------------
 
 var (
-	methodsQuick    = []string{"GET", "POST", "PUT", "DELETE", "HEAD", "OPTIONS", "PATCH"}
+	methodsQuick    = []string{"GET", "POST", "PUT", "DELETE", "HEAD", "OPTIONS", "PATCH", "post", "Put"}
 	methodsThorough = []string{"GET", "POST", "PUT", "DELETE", "HEAD", "OPTIONS", "PATCH", "TRACE", "get", "Post"}
 
 	ctsQuick    = []string{"none", "json", "form"}
@@ -41,9 +42,9 @@ var (
 
 	bodies = []string{"none", "json", "chunked"}
 
-	credsQuick    = []string{"none", "unknown-cookie", "expired-cookie", "valid-cookie", "wrong-basic", "right-basic"}
+	credsQuick    = []string{"none", "unknown-cookie", "expired-cookie", "valid-cookie", "wrong-basic", "right-basic", "gl-token-cookie"}
 	credsThorough = []string{"none", "unknown-cookie", "expired-cookie", "valid-cookie", "wrong-basic", "right-basic",
-		"upper-valid-cookie", "wrong-user-basic", "other-name-cookie", "empty-cookie", "valid-cookie+wrong-basic", "unknown-cookie+right-basic"}
+		"gl-token-cookie", "upper-valid-cookie", "wrong-user-basic", "other-name-cookie", "empty-cookie", "valid-cookie+wrong-basic", "unknown-cookie+right-basic"}
 
 	spellsQuick    = []string{"exact", "slash", "dslash", "dot", "dotdot", "upper"}
 	spellsThorough = []string{"exact", "slash", "dslash", "dot", "dotdot", "upper", "pct", "inner-dslash", "enc-dotdot", "query"}
@@ -52,6 +53,16 @@ var (
 var ctValue = map[string]string{
 	"none": "", "json": "application/json", "form": "application/x-www-form-urlencoded",
 	"json-charset": "application/json; charset=utf-8", "text": "text/plain",
+}
+
+const glToken = "verifc11"
+
+// writeGLToken creates /tmp/gl_token_<glToken> holding the current time in the
+// format the GL-Inet integration reads (4 bytes, native byte order).
+func writeGLToken() {
+	var b [4]byte
+	binary.NativeEndian.PutUint32(b[:], uint32(time.Now().Unix()))
+	_ = os.WriteFile("/tmp/gl_token_"+glToken, b[:], 0o600)
 }
 
 const (
@@ -462,6 +473,10 @@ func buildRequest(cs *reqCase) *http.Request {
 	cookie := func(name, v string) { r.AddCookie(&http.Cookie{Name: name, Value: v}) }
 	name := home.VerifC11SessionCookieName
 	switch cs.Cred {
+	case "gl-token-cookie":
+		// The cookie of the GL-Inet integration, with a fresh token file in
+		// place: it is a credential only in GL mode, which is off.
+		cookie("Admin-Token", glToken)
 	case "unknown-cookie":
 		cookie(name, tokUnknown)
 	case "expired-cookie":
@@ -785,6 +800,8 @@ func modeOfShard(i, n int) (mode string, sub, subN int) {
 }
 
 func run(c *lib.Ctx) {
+	writeGLToken()
+	defer os.Remove("/tmp/gl_token_" + glToken)
 	if pf := os.Getenv("VERIF_C11_PROF"); pf != "" {
 		if f, err := os.Create(fmt.Sprintf("%s.%d", pf, c.ShardI)); err == nil {
 			_ = pprof.StartCPUProfile(f)
@@ -883,6 +900,8 @@ func run(c *lib.Ctx) {
 }
 
 func replay(c *lib.Ctx, raw json.RawMessage) string {
+	writeGLToken()
+	defer os.Remove("/tmp/gl_token_" + glToken)
 	var cs reqCase
 	if err := json.Unmarshal(raw, &cs); err != nil {
 		return err.Error()
@@ -959,7 +978,7 @@ func main() {
 				"authorized_but_not_run":          m.Counters["authorized_but_not_run"],
 				"skipped_real_handler_valid_cred": m.Counters["skipped_real_handler_valid_cred"],
 				"skipped_public_login":            m.Counters["skipped_public_login"],
-				"rule": "2 registration orders (boot: DHCP routes before the auth module, user from the configuration; install: everything up to the web module without a user and firstRun=true, then the steps of handleInstallConfigure) x every pattern of the real mux (reflection over the routing index + callback record + go/ast inventory, cross-checked with mux.Handler) x concrete paths (pattern itself; 9 paths for \"/\"; 2 for a subtree) x spellings {exact, trailing slash, //, /./, /x/../, upper case} x 7 methods x content type {none, JSON, form} x body {none, {}, chunked {} of unknown length} x credentials {none, unknown cookie, expired cookie, valid cookie, wrong basic, right basic}; thorough adds spellings {percent-encoded letter, inner //, /x/%2e%2e/, query string naming public paths}, methods {TRACE, get, Post}, content types {JSON with charset, text/plain}, credentials {upper-case token, other user name, other cookie name, empty cookie, valid cookie + wrong basic, unknown cookie + right basic}. non-trivial = the request reaches the guard chain of a route (not answered by the mux's clean-path redirect with credentials). Bound: real handlers of package home are not executed with valid credentials, right method and acceptable content type (count skipped_real_handler_valid_cred) except GET on /control/profile, /control/status, /control/version.json; the real login handler is not executed with POST + acceptable content type",
+				"rule": "2 registration orders (boot: DHCP routes before the auth module, user from the configuration; install: everything up to the web module without a user and firstRun=true, then the steps of handleInstallConfigure) x every pattern of the real mux (reflection over the routing index + callback record + go/ast inventory, cross-checked with mux.Handler) x concrete paths (pattern itself; 9 paths for \"/\"; 2 for a subtree) x spellings {exact, trailing slash, //, /./, /x/../, upper case} x 9 methods (incl. the spellings post and Put) x content type {none, JSON, form} x body {none, {}, chunked {} of unknown length} x credentials {none, unknown cookie, expired cookie, valid cookie, wrong basic, right basic, GL-Inet token cookie with a fresh token file while GL mode is off}; thorough adds spellings {percent-encoded letter, inner //, /x/%2e%2e/, query string naming public paths}, methods {TRACE, get, Post}, content types {JSON with charset, text/plain}, credentials {upper-case token, other user name, other cookie name, empty cookie, valid cookie + wrong basic, unknown cookie + right basic}. non-trivial = the request reaches the guard chain of a route (not answered by the mux's clean-path redirect with credentials). Bound: real handlers of package home are not executed with valid credentials, right method and acceptable content type (count skipped_real_handler_valid_cred) except GET on /control/profile, /control/status, /control/version.json; the real login handler is not executed with POST + acceptable content type",
 			}
 		},
 		Assumptions: []string{
